@@ -624,8 +624,9 @@ def run(ctx):
     _e10(ctx)
     # the generated multi-word accessors write word by word in ascending address order: the hardware must apply the write with the
     # word at the last address (strobes of CSRStorage / writable CSRStatus follow that word) -- shared with C12.R2
-    from .c12 import last_word_strobes
+    from .c12 import last_word_strobes, atomic_backstore
     last_word_strobes(ctx, "E5")
+    atomic_backstore(ctx, "E5")
 
 
 def _seq(node, env, lists):
